@@ -206,6 +206,16 @@ def _array_ufunc(ufunc, method, *inputs, out=None, **kw):
             raise UnsupportedOp('reduce kwargs')
         initial = kw.get('initial', None)
         return _wrap(_reduce(f, a, axis, initial))
+    if method == 'accumulate':
+        a = _np.asarray(_plain(inputs[0]), dtype=object)
+        if a.ndim != 1 or kw.get('axis', 0) not in (0, -1):
+            raise UnsupportedOp('accumulate on ndim != 1')
+        out_ = _np.empty(a.shape, dtype=object)
+        acc = None
+        for k in range(a.shape[0]):
+            acc = a[k] if acc is None else f(acc, a[k])
+            out_[k] = acc
+        return _wrap(out_)
     raise UnsupportedOp('ufunc method %s' % method)
 
 
